@@ -40,17 +40,22 @@
      NestedUncancel  every nested TimerContext.__exit__ level calls task.uncancel()
                      (as coded; FALSE = repaired: the timer's own cancel request is
                       balanced once - see proposed_fixes/C18-nested-timer-uncancel.diff)
+     RearmChecksEof  FALSE = as coded: resume_reading() re-arms the sock_read timer even when
+                     resuming the parser just completed the payload and released the
+                     connection to the pool; TRUE = repaired
+                     (proposed_fixes/C18-read-timer-rearmed-after-eof.diff)
 
    Scripted = TRUE restricts the environment to the scenario `scn` chosen in Init
-   (stall point x cancel at the n-th step of the victim x start order): every such
-   behaviour is a behaviour of the free model; the driver replays them.             *)
+   (stall point x which timeout is configured x cancel at the n-th step of the victim,
+   before or after its wake-up was scheduled x start order): every such behaviour is a
+   behaviour of the free model with that one timeout configured; the driver replays them. *)
 EXTENDS Naturals, Sequences, FiniteSets, TLC
 
 CONSTANTS Limit, TOtotal, TOconnect, TOsockc, TOread, Thr, Offset, Horizon,
           Body, Expect100, AllowCancel, AllowPause, MaxPartial, BigChunk,
           ShieldDns, CloseOnFail, CancelWriter, RearmOnResume, Handoff,
-          TimerCoversBody, NestedUncancel,
-          Scripted, Stalls, MaxCancelAt, Orders
+          TimerCoversBody, NestedUncancel, RearmChecksEof,
+          Scripted, StallsTotal, StallsConnect, StallsSockc, StallsRead, MaxCancelAt, Orders
 
 VARIABLES s, scn
 
@@ -83,17 +88,28 @@ Init0 ==
      wpaused |-> FALSE, pauseNext |-> FALSE,
      written |-> [q \in Reqs |-> FALSE], rsp |-> [q \in Reqs |-> "none"],
      mq |-> [q \in Reqs |-> <<>>], buf |-> [q \in Reqs |-> FALSE], eof |-> [q \in Reqs |-> FALSE],
-     rexc |-> FALSE, rdPaused |-> FALSE, contSent |-> FALSE, dataSent |-> FALSE, nPartial |-> 0,
+     rexc |-> FALSE, rdPaused |-> FALSE, tailEof |-> FALSE, vconn |-> "none", contSent |-> FALSE, dataSent |-> FALSE, nPartial |-> 0,
      outcome |-> [q \in Reqs |-> "none"], endAt |-> [q \in Reqs |-> 0], startAt |-> [q \in Reqs |-> 0],
      cancelReq |-> FALSE, sockRef |-> 0, readRef |-> 0, faultConn |-> "none",
      fired |-> {}, vsteps |-> 0]
 
+StallKinds ==     \* scripted mode: which timeout is configured x where the environment stalls
+    {<<st, "total">> : st \in StallsTotal} \cup {<<st, "connect">> : st \in StallsConnect}
+    \cup {<<st, "sockc">> : st \in StallsSockc} \cup {<<st, "read">> : st \in StallsRead}
+
 Scenarios ==
     IF Scripted
-    THEN {[stall |-> st, cancelAt |-> ca, woken |-> wk, order |-> od] :
-             st \in Stalls, ca \in 0..MaxCancelAt, wk \in BOOLEAN, od \in Orders}
-         \cup {[stall |-> st, cancelAt |-> 99, woken |-> FALSE, order |-> od] : st \in Stalls, od \in Orders}
-    ELSE {[stall |-> "free", cancelAt |-> 99, woken |-> FALSE, order |-> "free"]}
+    THEN {[stall |-> sk[1], kind |-> sk[2], cancelAt |-> ca, woken |-> wk, order |-> od] :
+             sk \in StallKinds, ca \in 0..MaxCancelAt, wk \in BOOLEAN, od \in Orders}
+         \cup {[stall |-> sk[1], kind |-> sk[2], cancelAt |-> 99, woken |-> FALSE, order |-> od] :
+                  sk \in StallKinds, od \in Orders}
+    ELSE {[stall |-> "free", kind |-> "cfg", cancelAt |-> 99, woken |-> FALSE, order |-> "free"]}
+
+\* the delays in force: all configured ones (kind "cfg") or only the scenario's kind
+TT == IF scn.kind \in {"cfg", "total"} THEN TOtotal ELSE 0
+TC == IF scn.kind \in {"cfg", "connect"} THEN TOconnect ELSE 0
+TS == IF scn.kind \in {"cfg", "sockc"} THEN TOsockc ELSE 0
+TR == IF scn.kind \in {"cfg", "read"} THEN TOread ELSE 0
 
 Init == s = Init0 /\ scn \in Scenarios
 
@@ -141,8 +157,8 @@ ReleaseAcquired(x, h) == ReleaseWaiter([x EXCEPT !.acquired = @ \ {h}])
 (* ------------------------------------------------------------------------- *)
 (* sock_read timer (client_proto.py)                                           *)
 Resched(x, q) ==              \* _reschedule_timeout(): plain call_later, no ceiling
-    IF q = "v" /\ TOread > 0
-    THEN [AddTimer(x, "read", x.now + TOread) EXCEPT !.readRef = x.now]
+    IF q = "v" /\ TR > 0
+    THEN [AddTimer(x, "read", x.now + TR) EXCEPT !.readRef = x.now]
     ELSE x
 DropRead(x, q) == IF q = "v" THEN DropTimer(x, "read") ELSE x
 
@@ -196,8 +212,11 @@ WriterDone(x) ==              \* write_eof(); protocol.start_timeout()
     Resched([x EXCEPT !.pc["w"] = "done", !.fut["w"] = "none", !.written["v"] = TRUE], "v")
 
 Send(x, q) ==                 \* set_response_params, req._send(conn), resp.start(conn)
-    LET x0 == [x EXCEPT !.pc[q] = "AwaitHeaders", !.fut[q] = "pending"] IN
-    IF q = "b" THEN [x0 EXCEPT !.written["b"] = TRUE]
+    LET x0 == [x EXCEPT !.pc[q] = "AwaitHeaders", !.fut[q] = "pending",
+                        !.vconn = IF q = "v" THEN x.holds["v"] ELSE @] IN
+    IF q = "b"            \* start_timeout() with read_timeout None cancels a handle left on the protocol
+    THEN LET x1 == [x0 EXCEPT !.written["b"] = TRUE] IN
+         IF x.holds["b"] = x.vconn THEN DropTimer(x1, "read") ELSE x1
     ELSE IF ~(Body # "none" \/ Expect100 \/ x.wpaused)
          THEN Resched([x0 EXCEPT !.written["v"] = TRUE], "v")            \* start_timeout(); set_eof()
          ELSE IF Expect100                                                 \* eager writer task
@@ -207,7 +226,7 @@ Send(x, q) ==                 \* set_response_params, req._send(conn), resp.star
                    ELSE WriterDone(x0)
 
 SockStart(x, q) ==            \* _wrap_create_connection: ceil_timeout(sock_connect); loop.sock_connect
-    LET x1 == IF q = "v" /\ TOsockc > 0 THEN AddTimer(x, "sockc", WhenGT(x, TOsockc)) ELSE x
+    LET x1 == IF q = "v" /\ TS > 0 THEN AddTimer(x, "sockc", WhenGT(x, TS)) ELSE x
     IN [x1 EXCEPT !.sock[q] = TRUE, !.fut[q] = "pending", !.pc[q] = "SockConnect",
                   !.sockRef = IF q = "v" THEN x.now ELSE @]
 
@@ -226,7 +245,7 @@ TakeIdle(x, q) ==
 
 Connect(x, q) ==              \* BaseConnector.connect()
     IF x.idle # <<>> THEN TakeIdle(x, q)
-    ELSE LET x1 == IF q = "v" /\ TOconnect > 0 THEN AddTimer(x, "connect", WhenGT(x, TOconnect)) ELSE x IN
+    ELSE LET x1 == IF q = "v" /\ TC > 0 THEN AddTimer(x, "connect", WhenGT(x, TC)) ELSE x IN
          IF Avail(x1) <= 0
          THEN [x1 EXCEPT !.waiters = Append(@, q), !.fut[q] = "pending", !.pc[q] = "PoolWait"]
          ELSE Reserve(x1, q)
@@ -245,8 +264,16 @@ ReleaseClean(x, q) ==         \* _response_eof -> Connection.release(): back to 
 Consume(x, q) ==              \* readany(): take the buffer; resume_reading() below the low-water mark
     LET x1 == [x EXCEPT !.buf[q] = FALSE] IN
     IF q = "v" /\ x.rdPaused
-    THEN LET x2 == [x1 EXCEPT !.rdPaused = FALSE, !.readRef = x.now] IN
-         IF RearmOnResume /\ TOread > 0 THEN AddTimer(x2, "read", x.now + TOread) ELSE x2
+    THEN \* ResponseHandler.resume_reading(): BaseProtocol.resume_reading() first parses what the
+         \* paused parser left over (data_received(b"")) - possibly up to EOF, which releases the
+         \* connection - and only then the sock_read timer is re-armed
+         LET x2 == [x1 EXCEPT !.rdPaused = FALSE, !.readRef = x.now]
+             x3 == IF x.tailEof
+                   THEN LET y == DropRead([x2 EXCEPT !.tailEof = FALSE, !.eof[q] = TRUE, !.buf[q] = TRUE], q)
+                        IN IF y.pc[q] = "BodyRead" THEN ReleaseClean(y, q) ELSE y
+                   ELSE x2
+         IN IF RearmOnResume /\ TR > 0 /\ (RearmChecksEof => ~x3.eof[q])
+            THEN AddTimer(x3, "read", x.now + TR) ELSE x3
     ELSE x1
 
 BodyLoop(x, q) ==             \* ClientResponse.read() -> StreamReader.read(): loop of readany()
@@ -282,7 +309,7 @@ StepReq(x0, q) ==
     CASE p = "start" ->
            IF how = "cancel" THEN Finish(x, q, "cancelled")
            ELSE LET x1 == x
-                    x2 == IF q = "v" /\ TOtotal > 0 THEN AddTimer(x1, "total", WhenGE(x1, TOtotal)) ELSE x1
+                    x2 == IF q = "v" /\ TT > 0 THEN AddTimer(x1, "total", WhenGE(x1, TT)) ELSE x1
                 IN Connect(x2, q)
       [] p = "PoolWait" ->
            IF how = "cancel"
@@ -365,7 +392,10 @@ Dispatch(x, e) ==
       [] e[1] = "tmr" /\ e[2] = "read" ->      \* ResponseHandler._on_read_timeout
            LET x1 == [x EXCEPT !.rexc = TRUE, !.fired = @ \cup {"read"}] IN
            IF x.pc["v"] \in {"AwaitHeaders", "BodyRead"} /\ x.fut["v"] = "pending"
-           THEN [x1 EXCEPT !.fut["v"] = "exc", !.ready = Append(@, T("v"))] ELSE x1
+           THEN [x1 EXCEPT !.fut["v"] = "exc", !.ready = Append(@, T("v"))]
+           ELSE IF x.pc["v"] = "done" /\ x.vconn # "none"
+                THEN [x1 EXCEPT !.dirty[x.vconn] = TRUE]      \* set_exception on a pooled protocol
+                ELSE x1
       [] OTHER -> x
 
 (* ------------------------------------------------------------------------- *)
@@ -460,10 +490,19 @@ Deliver(q, part) ==           \* ResponseHandler.data_received
               [] part = "data" ->
                    LET x1 == [x EXCEPT !.dataSent = TRUE, !.buf[q] = TRUE] IN
                    WakeReader(IF BigChunk THEN DropRead([x1 EXCEPT !.rdPaused = TRUE], q) ELSE x1, q, "BodyRead")
+              [] part \in {"rest", "all"} /\ q = "v" /\ BigChunk /\ ~x.dataSent ->
+                   \* the segment carries the big chunk and the end of the body: the reader's buffer
+                   \* passes the high-water mark, reading and the parser pause (timer dropped), the
+                   \* tail (with EOF) is parsed when reading resumes
+                   LET x1 == DropRead([x EXCEPT !.rsp[q] = "eof", !.buf[q] = TRUE, !.dataSent = TRUE,
+                                                 !.rdPaused = TRUE, !.tailEof = TRUE,
+                                                 !.mq[q] = IF part = "all" THEN Append(@, "head") ELSE @], q)
+                   IN WakeReader(x1, q, IF part = "all" THEN "AwaitHeaders" ELSE "BodyRead")
               [] part = "rest" ->     \* feed_eof: on_eof callbacks: _drop_timeout, _response_eof
+                   \* StreamReader.feed_eof wakes the reader first, then runs the on_eof callbacks
                    LET x1 == DropRead([x EXCEPT !.rsp[q] = "eof", !.eof[q] = TRUE, !.buf[q] = TRUE], q)
-                       x2 == IF x1.pc[q] = "BodyRead" THEN ReleaseClean(x1, q) ELSE x1
-                   IN WakeReader(x2, q, "BodyRead")
+                       x2 == WakeReader(x1, q, "BodyRead")
+                   IN IF x2.pc[q] = "BodyRead" THEN ReleaseClean(x2, q) ELSE x2
               [] part = "all" ->
                    WakeReader(DropRead([x EXCEPT !.rsp[q] = "eof", !.eof[q] = TRUE, !.buf[q] = TRUE,
                                                  !.mq[q] = Append(@, "head")], q), q, "AwaitHeaders")
@@ -513,12 +552,12 @@ Spec == Init /\ [][Next]_vars
 VPending == s.pc["v"] \notin {"new", "done"}
 
 \* Bounded: while timeout K applies, virtual time never passes start_K + d + Rounding(d)
-BoundedTotal == (TOtotal > 0 /\ VPending) => s.now <= Deadline(s.startAt["v"], TOtotal)
-BoundedConnect == (TOconnect > 0 /\ s.pc["v"] \in ConnectPhases) => s.now <= Deadline(s.startAt["v"], TOconnect)
-BoundedSockConnect == (TOsockc > 0 /\ s.pc["v"] \in {"SockConnect", "ConnMade"}) => s.now <= Deadline(s.sockRef, TOsockc)
+BoundedTotal == (TT > 0 /\ VPending) => s.now <= Deadline(s.startAt["v"], TT)
+BoundedConnect == (TC > 0 /\ s.pc["v"] \in ConnectPhases) => s.now <= Deadline(s.startAt["v"], TC)
+BoundedSockConnect == (TS > 0 /\ s.pc["v"] \in {"SockConnect", "ConnMade"}) => s.now <= Deadline(s.sockRef, TS)
 BoundedSockRead ==
-    (TOread > 0 /\ s.pc["v"] \in {"AwaitHeaders", "BodyRead"} /\ s.written["v"] /\ ~s.rdPaused)
-        => s.now <= Deadline(s.readRef, TOread)
+    (TR > 0 /\ s.pc["v"] \in {"AwaitHeaders", "BodyRead"} /\ s.written["v"] /\ ~s.rdPaused)
+        => s.now <= Deadline(s.readRef, TR)
 Bounded == BoundedTotal /\ BoundedConnect /\ BoundedSockConnect /\ BoundedSockRead
 
 \* a timeout-class error only after a configured timer fired, and never early
@@ -540,6 +579,18 @@ NoResidue ==
         /\ s.timers = {}                                   \* no pending timer of the victim
         /\ s.pc["w"] \in {"none", "done", "cancelled"}     \* writer task finished
         /\ "v" \notin s.throttle                           \* no DNS waiter of the victim
+        /\ "v" \notin Range(s.waiters)
+        /\ Ph("v") \notin s.acquired /\ s.holds["v"] = "none" /\ ~s.sock["v"]
+        /\ (s.outcome["v"] # "ok" /\ s.faultConn # "none") =>
+               (s.conn[s.faultConn] = "closed" /\ s.faultConn \notin Range(s.idle)
+                /\ Co(s.faultConn) \notin s.acquired)
+
+\* the same without the named deviation (sock_read timer left armed on the pooled connection)
+NoResidueButRearm ==
+    (s.pc["v"] = "done" /\ s.ready = <<>>) =>
+        /\ {tm \in s.timers : ~(tm.k = "read" /\ s.outcome["v"] = "ok")} = {}
+        /\ s.pc["w"] \in {"none", "done", "cancelled"}
+        /\ "v" \notin s.throttle
         /\ "v" \notin Range(s.waiters)
         /\ Ph("v") \notin s.acquired /\ s.holds["v"] = "none" /\ ~s.sock["v"]
         /\ (s.outcome["v"] # "ok" /\ s.faultConn # "none") =>
